@@ -130,6 +130,33 @@ def reuse_scenarios():
     return scns
 
 
+def across_clear_scenarios():
+    """variables the consumer created before a clear() and keeps using, asserted together with variables created
+    afterwards: a stored fact keeps them apart exactly as the asserted term did"""
+    X, Y, Z = V(0), V(1), V(2)
+    scns = []
+    for nclear in (1, 2):
+        for first_goal, q1 in ((C("=", V(0), V(0)), 1), (C("=", C("f", V(0), V(1)), C("f", V(1), V(0))), 2)):
+            for term in (C("pair", V(0), V(5)), C("pair", V(5), V(0)), C("tri", V(0), V(5), V(6)), C("pair", C("g", V(0)), lst([V(5)], V(6)))):
+                steps = [[{"op": "clear", "e": 1}]] * (nclear - 1)
+                steps = steps + [[{"op": "clear", "e": 1}], [{"op": "solve", "e": 1, "r": 1, "goal": first_goal, "qnv": q1, "k": 0}], [{"op": "clear", "e": 1}],
+                                 [{"op": "assert", "e": 1, "term": term, "atEnd": True, "r": 1}]]
+                k = len(term["a"])
+                steps.append([{"op": "solve", "e": 1, "r": 2, "goal": C(term["n"], *[V(i) for i in range(k)]), "qnv": k, "k": 0}])
+                steps.append([{"op": "solve", "e": 1, "r": 3, "goal": C(term["n"], *[I(i + 1) for i in range(k)]), "qnv": 0, "k": 0}])
+                steps.append([{"op": "solve", "e": 1, "r": 4, "goal": C(term["n"], *([C("g", A("a"))] + [V(i) for i in range(k - 1)])), "qnv": k - 1, "k": 0}])
+                scns.append({"scripts": {}, "steps": steps, "keys": []})
+    # the same from compiled code: the clause's own fresh variable meets the caller's variable
+    script = {"init/1": [clause(C("init", V(0)), call(C("assertz", C("slot", V(0), V(900)))))],
+              "init2/2": [clause(C("init2", V(0), V(1)), conj(call(C("=", V(2), C("h", V(0), V(3)))), call(C("assertz", C("slot", V(2), V(1))))))]}
+    for g, q in ((C("init", V(0)), 1), (C("init2", V(0), V(1)), 2)):
+        steps = [[{"op": "clear", "e": 1}], [{"op": "load", "e": 1, "script": "P", "ow": True}], [{"op": "solve", "e": 1, "r": 1, "goal": g, "qnv": q, "k": 0}],
+                 [{"op": "solve", "e": 1, "r": 2, "goal": C("slot", V(0), V(1)), "qnv": 2, "k": 0}], [{"op": "solve", "e": 1, "r": 3, "goal": C("slot", A("a"), A("b")), "qnv": 0, "k": 0}],
+                 [{"op": "solve", "e": 1, "r": 4, "goal": C("slot", C("h", A("a"), A("b")), A("c")), "qnv": 0, "k": 0}]]
+        scns.append({"scripts": {"P": script}, "steps": steps, "keys": []})
+    return scns
+
+
 def aborted_copy_scenarios():
     """a use of a fact that is cut short inside the engine (evaluate_bounded swallows the RecursionError of a
     deep renaming), then two simultaneous uses of the same fact: each still gets variables of its own"""
@@ -154,6 +181,7 @@ def run(tier, seed):
     rnd = random.Random(seed)
     chk.machine_family("assert-histories", scenarios(), features=features)
     chk.machine_family("reuse-after-abandoned-use", reuse_scenarios(), features=features)
+    chk.machine_family("variables-that-outlive-clear", across_clear_scenarios(), {"must_complete": True}, features=features)
     chk.machine_family("two-uses-after-an-aborted-renaming", aborted_copy_scenarios(), {"budget_extra": 20000000}, features=features, max_steps=8000)
     n = 1200 if tier == "quick" else 15000
     rs = [gen.random_scenario(rnd, {"db", "dyn", "ctl", "rich"}, nclauses=3, depth=rnd.choice([2, 3])) for _ in range(n)]
